@@ -136,7 +136,8 @@ class Scripted:
         self.exchange = 0
         plan = {}
         if script.get("connect_fault"):
-            plan[(script["connect_fault"][0], 0)] = mk_exc(script["connect_fault"][1])
+            cfv = script["connect_fault"]
+            plan[(cfv[0], cfv[2] if len(cfv) > 2 else 0)] = mk_exc(cfv[1])      # (api, kind[, occurrence of that api within this call])
         if script.get("send_fault"):
             after = script.get("send_after")       # None = nothing delivered; -1 = everything; n = first n bytes
             if after is None:
